@@ -13,17 +13,17 @@ Open Scope N_scope.
 (* ------------------------------------------------------------------ *)
 (* related files and disks                                              *)
 Definition frel (f g : dfile) : Prop :=
-  df_ents f = df_ents g /\ df_end f = df_end g /\ df_seal f = df_seal g /\ df_size f = df_size g /\
+  df_ents f = df_ents g /\ df_end f = df_end g /\ df_seal f = df_seal g /\
   (df_pend f = df_pend g \/ df_pend g = None).
 
 Definition lrel (l lc : list (fname * dfile)) : Prop :=
   Forall2 (fun a b => fst a = fst b /\ frel (snd a) (snd b)) l lc.
 
-(* [o] = the only file name whose pending batch may differ *)
-Definition drel (o : option fname) (d dc : disk) : Prop :=
+(* [X] = the file names whose pending batch may differ *)
+Definition drel (X : list fname) (d dc : disk) : Prop :=
   lrel (dk_files d) (dk_files dc) /\ dk_meta d = dk_meta dc /\ dk_stable d = dk_stable dc /\
   dk_inited d = dk_inited dc /\ NoDup (map fst (dk_files dc)) /\
-  (forall n f g, lookup n (dk_files d) = Some f -> lookup n (dk_files dc) = Some g -> o <> Some n ->
+  (forall n f g, lookup n (dk_files d) = Some f -> lookup n (dk_files dc) = Some g -> ~ In n X ->
                  df_pend f = df_pend g).
 
 Lemma frel_refl f : frel f f.
@@ -32,7 +32,7 @@ Proof. unfold frel. auto 10. Qed.
 Lemma lrel_refl l : lrel l l.
 Proof. induction l as [|a l IH]; constructor; [split; [reflexivity|apply frel_refl]|exact IH]. Qed.
 
-Lemma drel_refl o d : NoDup (map fst (dk_files d)) -> drel o d d.
+Lemma drel_refl X d : NoDup (map fst (dk_files d)) -> drel X d d.
 Proof.
   intros ND. split; [apply lrel_refl|]. repeat split; auto. intros n f g H1 H2 _. congruence.
 Qed.
@@ -83,26 +83,49 @@ Proof.
   constructor; [split; [reflexivity|exact Hf]|exact IH].
 Qed.
 
-Lemma drel_weaken o d dc : drel None d dc -> drel o d dc.
+Lemma drel_incl X X' d dc : incl X X' -> drel X d dc -> drel X' d dc.
 Proof.
-  intros (H1 & H2 & H3 & H4 & H5 & H6). repeat split; auto. intros n f g A B _. apply (H6 n f g A B). discriminate.
+  intros Hi (H1 & H2 & H3 & H4 & H5 & H6). repeat split; auto. intros n f g A B Hn. apply (H6 n f g A B).
+  intros K. apply Hn. apply Hi. exact K.
 Qed.
 
-Lemma drel_NoDup o d dc : drel o d dc -> NoDup (map fst (dk_files d)).
+Lemma drel_weaken X d dc : drel [] d dc -> drel X d dc.
+Proof. apply drel_incl. intros x []. Qed.
+
+Lemma drel_NoDup X d dc : drel X d dc -> NoDup (map fst (dk_files d)).
 Proof. intros (H1 & _ & _ & _ & H5 & _). rewrite (lrel_keys _ _ H1). exact H5. Qed.
 
-Lemma drel_lookup_none o d dc n : drel o d dc -> lookup n (dk_files d) = None <-> lookup n (dk_files dc) = None.
+Lemma drel_lookup_none X d dc n : drel X d dc -> lookup n (dk_files d) = None <-> lookup n (dk_files dc) = None.
 Proof. intros (H1 & _). apply lrel_lookup_none. exact H1. Qed.
+
+(* removing a name from the set *)
+Definition rem (n : fname) (X : list fname) : list fname := filter (fun m => negb (fname_eqb m n)) X.
+
+Lemma rem_in n X m : In m (rem n X) <-> In m X /\ m <> n.
+Proof.
+  unfold rem. rewrite filter_In. split; intros (A & B); split; auto.
+  - intros ->. rewrite fname_eqb_refl in B. discriminate.
+  - apply fname_eqb_neq in B. rewrite B. reflexivity.
+Qed.
+Lemma rem_not n X : ~ In n (rem n X).
+Proof. rewrite rem_in. intros (_ & K). congruence. Qed.
+Lemma rem_incl n X : incl (rem n X) X.
+Proof. intros m H. apply rem_in in H. apply H. Qed.
+Lemma rem_notin n X m : ~ In m (rem n X) -> ~ In m X \/ m = n.
+Proof.
+  intros H. destruct (fname_eqb m n) eqn:E; [right; apply fname_eqb_eq; exact E|left].
+  intros K. apply H. apply rem_in. split; [exact K|]. apply fname_eqb_neq. exact E.
+Qed.
 
 (* ------------------------------------------------------------------ *)
 (* actions preserve the relation                                        *)
 Definition simple_act (a : act) : Prop :=
   match a with AWrite _ _ _ _ | ASync _ => False | _ => True end.
 
-Lemma drel_act_simple o d dc a : simple_act a -> drel o d dc -> drel o (apply_act d a) (apply_act dc a).
+Lemma drel_act_simple X d dc a : simple_act a -> drel X d dc -> drel X (apply_act d a) (apply_act dc a).
 Proof.
   intros Hs (H1 & H2 & H3 & H4 & H5 & H6).
-  destruct a as [n sz|n off l b|n|n|ps|k v| |a']; try destruct Hs; cbn [apply_act].
+  destruct a as [n sz|n off l b|n|n|ps|k v| | |a']; try destruct Hs; cbn [apply_act].
   - (* create *)
     split; [cbn [dk_files]; apply lrel_update; [exact H1|apply frel_refl]|]. cbn [dk_files dk_meta dk_stable dk_inited].
     repeat split; auto; [apply update_NoDup; exact H5|].
@@ -118,44 +141,43 @@ Proof.
   - repeat split; cbn; auto. congruence.
   - repeat split; auto.
   - repeat split; auto.
+  - repeat split; auto.
 Qed.
 
-(* deleting the possibly stale file makes the relation strict *)
-Lemma drel_delete_stale n d dc : drel (Some n) d dc -> drel None (apply_act d (ADelete n)) (apply_act dc (ADelete n)).
+(* a creation that leaves a file of another requested size *)
+Lemma drel_create X d dc n sz sz' : drel X d dc -> drel X (apply_act d (ACreate n sz)) (apply_act dc (ACreate n sz')).
+Proof.
+  intros (H1 & H2 & H3 & H4 & H5 & H6). cbn [apply_act].
+  split; [cbn [dk_files]; apply lrel_update; [exact H1|unfold frel; cbn; auto]|]. cbn [dk_files dk_meta dk_stable dk_inited].
+  repeat split; auto; [apply update_NoDup; exact H5|].
+  intros m f g A B Hne. rewrite lookup_update in A, B. destruct (fname_eqb m n); [inversion A; inversion B; reflexivity|].
+  apply (H6 m f g A B Hne).
+Qed.
+
+(* deleting a possibly stale file removes it from the set *)
+Lemma drel_delete_stale n X d dc : drel X d dc -> drel (rem n X) (apply_act d (ADelete n)) (apply_act dc (ADelete n)).
 Proof.
   intros (H1 & H2 & H3 & H4 & H5 & H6). cbn [apply_act].
   split; [cbn [dk_files]; apply lrel_remove; exact H1|]. cbn [dk_files dk_meta dk_stable dk_inited].
   repeat split; auto; [apply remove_NoDup; exact H5|].
-  intros m f g A B _. pose proof H5 as H5'. rewrite <- (lrel_keys _ _ H1) in H5'.
+  intros m f g A B Hn. pose proof H5 as H5'. rewrite <- (lrel_keys _ _ H1) in H5'.
   rewrite lookup_remove in A by exact H5'. rewrite lookup_remove in B by exact H5.
   destruct (fname_eqb m n) eqn:E; [discriminate|]. apply (H6 m f g A B).
-  intros K. inversion K; subst. rewrite fname_eqb_refl in E. discriminate.
+  destruct (rem_notin n X m Hn) as [K|K]; [exact K|]. subst m. rewrite fname_eqb_refl in E. discriminate.
 Qed.
 
 (* a write whose offset is not the end of a stale batch *)
 Definition wguard (d : disk) (n : fname) (off : N) : Prop :=
   forall f p, lookup n (dk_files d) = Some f -> df_pend f = Some p -> off <> pb_end p.
 
-Definition clr (o : option fname) (n : fname) : option fname :=
-  match o with Some m => if fname_eqb m n then None else o | None => None end.
-
-Lemma clr_spec o n m : clr o n <> Some m -> o <> Some m \/ m = n.
-Proof.
-  unfold clr. destruct o as [k|]; [|left; discriminate].
-  destruct (fname_eqb k n) eqn:E; [|left; exact (fun x => H x)].
-  apply fname_eqb_eq in E. subst k. intros _.
-  destruct (fname_eqb m n) eqn:E2; [right; apply fname_eqb_eq; exact E2|left].
-  intros K. inversion K; subst. rewrite fname_eqb_refl in E2. discriminate.
-Qed.
-
-Lemma drel_write o d dc n off l b :
-  drel o d dc -> (o = Some n -> wguard d n off) ->
-  drel (clr o n) (apply_act d (AWrite n off l b)) (apply_act dc (AWrite n off l b)).
+Lemma drel_write X d dc n off l b :
+  drel X d dc -> (In n X -> wguard d n off) ->
+  drel (rem n X) (apply_act d (AWrite n off l b)) (apply_act dc (AWrite n off l b)).
 Proof.
   intros (H1 & H2 & H3 & H4 & H5 & H6) Hg. cbn [apply_act].
   pose proof (lrel_lookup n _ _ H1) as K.
   destruct (lookup n (dk_files d)) as [f|] eqn:Ef, (lookup n (dk_files dc)) as [g|] eqn:Eg; [|destruct K|destruct K|].
-  - destruct K as (K1 & K2 & K3 & K4 & K5).
+  - destruct K as (K1 & K2 & K3 & K5).
     assert (Hb : match df_pend f with
                  | Some p => if off =? pb_end p then {| pb_ents := pb_ents p ++ pb_ents b; pb_end := pb_end b; pb_seal := pb_seal b |} else b
                  | None => b end =
@@ -164,31 +186,32 @@ Proof.
                  | None => b end).
     { destruct K5 as [K5|K5]; [rewrite K5; reflexivity|].
       rewrite K5. destruct (df_pend f) as [p|] eqn:Ep; [|reflexivity].
-      assert (Ho : o = Some n).
-      { destruct o as [m|].
-        - destruct (fname_eqb m n) eqn:E; [apply fname_eqb_eq in E; congruence|].
-          exfalso. assert (Hne : Some m <> Some n) by (intros X; inversion X; subst; rewrite fname_eqb_refl in E; discriminate).
-          specialize (H6 n f g Ef Eg Hne). congruence.
-        - exfalso. specialize (H6 n f g Ef Eg ltac:(discriminate)). congruence. }
+      assert (Ho : In n X).
+      { destruct (in_dec (fun a b => match N.eq_dec (fst a) (fst b), N.eq_dec (snd a) (snd b) with
+                                       | left e1, left e2 => left (match a, b return fst a = fst b -> snd a = snd b -> a = b with
+                                                                   (a1, a2), (b1, b2) => fun p q => f_equal2 pair p q end e1 e2)
+                                       | right ne, _ => right (fun E => ne (f_equal fst E))
+                                       | _, right ne => right (fun E => ne (f_equal snd E)) end) n X) as [I|NI]; [exact I|].
+        exfalso. specialize (H6 n f g Ef Eg NI). congruence. }
       specialize (Hg Ho f p Ef Ep). replace (off =? pb_end p) with false by lia. reflexivity. }
     split; [cbn [dk_files]; apply lrel_update; [exact H1|]|].
-    { unfold frel. cbn [df_ents df_end df_seal df_size df_pend]. repeat split; auto. left. rewrite Hb. reflexivity. }
+    { unfold frel. cbn [df_ents df_end df_seal df_pend]. repeat split; auto. left. rewrite Hb. reflexivity. }
     cbn [dk_files dk_meta dk_stable dk_inited]. repeat split; auto; [apply update_NoDup; exact H5|].
     intros m f' g' A B Hne. rewrite lookup_update in A, B. destruct (fname_eqb m n) eqn:E.
     + inversion A; inversion B; subst. cbn [df_pend]. rewrite Hb. reflexivity.
-    + apply (H6 m f' g' A B). destruct (clr_spec o n m Hne) as [X|X]; [exact X|].
+    + apply (H6 m f' g' A B). destruct (rem_notin n X m Hne) as [Y|Y]; [exact Y|].
       subst m. rewrite fname_eqb_refl in E. discriminate.
   - repeat split; auto. intros m f' g' A B Hne. apply (H6 m f' g' A B).
-    destruct (clr_spec o n m Hne) as [X|X]; [exact X|]. subst m. congruence.
+    destruct (rem_notin n X m Hne) as [Y|Y]; [exact Y|]. subst m. congruence.
 Qed.
 
-Lemma drel_sync o d dc n :
-  drel o d dc -> o <> Some n -> drel o (apply_act d (ASync n)) (apply_act dc (ASync n)).
+Lemma drel_sync X d dc n :
+  drel X d dc -> ~ In n X -> drel X (apply_act d (ASync n)) (apply_act dc (ASync n)).
 Proof.
   intros (H1 & H2 & H3 & H4 & H5 & H6) Hne. cbn [apply_act].
   pose proof (lrel_lookup n _ _ H1) as K.
   destruct (lookup n (dk_files d)) as [f|] eqn:Ef, (lookup n (dk_files dc)) as [g|] eqn:Eg; [|destruct K|destruct K|].
-  - destruct K as (K1 & K2 & K3 & K4 & _). pose proof (H6 n f g Ef Eg Hne) as K5.
+  - destruct K as (K1 & K2 & K3 & _). pose proof (H6 n f g Ef Eg Hne) as K5.
     assert (Hfr : frel (match df_pend f with
                     | None => {| df_ents := df_ents f; df_end := df_end f; df_seal := df_seal f; df_pend := None; df_dir := true; df_size := df_size f |}
                     | Some b => {| df_ents := df_ents f ++ pb_ents b; df_end := pb_end b; df_seal := pb_seal b; df_pend := None; df_dir := true; df_size := df_size f |} end)
@@ -206,8 +229,8 @@ Qed.
 
 (* ------------------------------------------------------------------ *)
 (* environments                                                         *)
-Definition R (o : option fname) (e ec : env) : Prop :=
-  drel o (e_disk e) (e_disk ec) /\ e_fault ec = None.
+Definition R (X : list fname) (e ec : env) : Prop :=
+  drel X (e_disk e) (e_disk ec) /\ e_fault ec = None.
 
 (* the shadow run: what it appended to the history, and its final disk *)
 Definition aext (ec0 ec1 : env) : Prop :=
@@ -261,131 +284,170 @@ Qed.
 
 (* ------------------------------------------------------------------ *)
 (* one I/O action                                                       *)
-Lemma io_cases a e :
+Lemma io_cases a e : is_delete a = false ->
   (exists e', io a e = (true, e') /\ e_disk e' = apply_act (e_disk e) a /\ e_acts e' = a :: e_acts e /\ e_m e' = e_m e /\
-              (e_fault e = None -> e_fault e' = None)) \/
-  (is_delete a = false /\ exists e', io a e = (false, e') /\ e_disk e' = e_disk e /\ e_fault e' = None /\ e_m e' = e_m e).
+              e_fx e' = e_fx e /\ (e_fault e = None -> e_fault e' = None)) \/
+  (exists e', io a e = (false, e') /\ e_disk e' = e_disk e /\ e_fault e' = None /\ e_m e' = e_m e /\ e_fx e' = e_fx e).
 Proof.
-  unfold io. destruct (is_delete a) eqn:Ed.
+  intros Ed. unfold io. rewrite Ed. destruct (e_fault e) as [[|k]|].
+  - right. eexists. split; [reflexivity|]. cbn. auto.
+  - left. eexists. split; [reflexivity|]. cbn. repeat split; auto. discriminate.
   - left. eexists. split; [reflexivity|]. cbn. auto.
-  - destruct (e_fault e) as [[|k]|].
-    + right. split; [reflexivity|]. eexists. split; [reflexivity|]. cbn. auto.
-    + left. eexists. split; [reflexivity|]. cbn. repeat split; auto. discriminate.
-    + left. eexists. split; [reflexivity|]. cbn. auto.
 Qed.
 
-Lemma drel_clr_weaken o n d dc : drel (clr o n) d dc -> drel o d dc.
-Proof.
-  intros (H1 & H2 & H3 & H4 & H5 & H6). repeat split; auto. intros m f g A B Hne. apply (H6 m f g A B).
-  unfold clr. destruct o as [k|]; [|discriminate]. destruct (fname_eqb k n); [discriminate|exact Hne].
-Qed.
+Lemma drel_rem_weaken n X d dc : drel (rem n X) d dc -> drel X d dc.
+Proof. apply drel_incl. apply rem_incl. Qed.
 
-Lemma R_clr_weaken o n e ec : R (clr o n) e ec -> R o e ec.
-Proof. intros (H & F). split; [eapply drel_clr_weaken; eauto|exact F]. Qed.
+Lemma R_rem_weaken n X e ec : R (rem n X) e ec -> R X e ec.
+Proof. intros (H & F). split; [eapply drel_rem_weaken; eauto|exact F]. Qed.
 
-Lemma R_weaken o e ec : R None e ec -> R o e ec.
-Proof. intros (H & F). split; [apply drel_weaken; exact H|exact F]. Qed.
+Lemma R_incl X X' e ec : incl X X' -> R X e ec -> R X' e ec.
+Proof. intros Hi (H & F). split; [eapply drel_incl; eauto|exact F]. Qed.
 
-Lemma R_add_m o e ec f g : R o e ec -> R o (add_m e f) (add_m ec g).
+Lemma R_weaken X e ec : R [] e ec -> R X e ec.
+Proof. apply R_incl. intros x []. Qed.
+
+Lemma R_add_m X e ec f g : R X e ec -> R X (add_m e f) (add_m ec g).
 Proof. intros H. exact H. Qed.
 
 Lemma io_env_fault a e : e_fault (io_env a e) = None. Proof. reflexivity. Qed.
 
-Lemma io_lock o a e ec : R o e ec -> simple_act a ->
+Definition nodel_act (a : act) : Prop := simple_act a /\ is_delete a = false.
+
+Lemma io_lock X a e ec : R X e ec -> nodel_act a ->
   io a ec = (true, io_env a ec) /\
-  ((exists e', io a e = (true, e') /\ R o e' (io_env a ec)) \/
-   (exists e', io a e = (false, e') /\ e_disk e' = e_disk e /\ e_fault e' = None)).
+  ((exists e', io a e = (true, e') /\ R X e' (io_env a ec) /\ e_fx e' = e_fx e) \/
+   (exists e', io a e = (false, e') /\ e_disk e' = e_disk e /\ e_fault e' = None /\ e_fx e' = e_fx e)).
 Proof.
-  intros (Hd & Hf) Hs. split; [apply io_ok; exact Hf|].
-  destruct (io_cases a e) as [(e' & E & D & _)|(_ & e' & E & D & F & _)].
-  - left. exists e'. split; [exact E|]. split; [|reflexivity]. rewrite D. cbn [io_env e_disk].
+  intros (Hd & Hf) (Hs & Hnd). split; [apply io_ok; exact Hf|].
+  destruct (io_cases a e Hnd) as [(e' & E & D & _ & _ & Fx & _)|(e' & E & D & F & _ & Fx)].
+  - left. exists e'. split; [exact E|]. split; [|exact Fx]. split; [|reflexivity]. rewrite D. cbn [io_env e_disk].
     apply drel_act_simple; assumption.
   - right. exists e'. auto.
 Qed.
 
-Lemma io_lock_write o n off l b e ec : R o e ec -> (o = Some n -> wguard (e_disk e) n off) ->
+Lemma io_lock_write X n off l b e ec : R X e ec -> (In n X -> wguard (e_disk e) n off) ->
   io (AWrite n off l b) ec = (true, io_env (AWrite n off l b) ec) /\
-  ((exists e', io (AWrite n off l b) e = (true, e') /\ R (clr o n) e' (io_env (AWrite n off l b) ec)) \/
+  ((exists e', io (AWrite n off l b) e = (true, e') /\ R (rem n X) e' (io_env (AWrite n off l b) ec)) \/
    (exists e', io (AWrite n off l b) e = (false, e') /\ e_disk e' = e_disk e /\ e_fault e' = None)).
 Proof.
   intros (Hd & Hf) Hg. split; [apply io_ok; exact Hf|].
-  destruct (io_cases (AWrite n off l b) e) as [(e' & E & D & _)|(_ & e' & E & D & F & _)].
+  destruct (io_cases (AWrite n off l b) e eq_refl) as [(e' & E & D & _)|(e' & E & D & F & _)].
   - left. exists e'. split; [exact E|]. split; [|reflexivity]. rewrite D. cbn [io_env e_disk].
     apply drel_write; assumption.
   - right. exists e'. auto.
 Qed.
 
-Lemma io_lock_sync o n e ec : R o e ec -> o <> Some n ->
+Lemma io_lock_sync X n e ec : R X e ec -> ~ In n X ->
   io (ASync n) ec = (true, io_env (ASync n) ec) /\
-  ((exists e', io (ASync n) e = (true, e') /\ R o e' (io_env (ASync n) ec)) \/
+  ((exists e', io (ASync n) e = (true, e') /\ R X e' (io_env (ASync n) ec)) \/
    (exists e', io (ASync n) e = (false, e') /\ e_disk e' = e_disk e /\ e_fault e' = None)).
 Proof.
   intros (Hd & Hf) Hg. split; [apply io_ok; exact Hf|].
-  destruct (io_cases (ASync n) e) as [(e' & E & D & _)|(_ & e' & E & D & F & _)].
+  destruct (io_cases (ASync n) e eq_refl) as [(e' & E & D & _)|(e' & E & D & F & _)].
   - left. exists e'. split; [exact E|]. split; [|reflexivity]. rewrite D. cbn [io_env e_disk].
     apply drel_sync; assumption.
   - right. exists e'. auto.
 Qed.
 
-Lemma clr_not o n : clr o n <> Some n.
+(* ------------------------------------------------------------------ *)
+(* deletions: they all succeed, or (deletion faults armed) they all fail and
+   change nothing                                                        *)
+Definition del_fails (e : env) : bool := armed e && fx_del (e_fx e).
+
+Fixpoint rems (ns : list fname) (X : list fname) : list fname :=
+  match ns with [] => X | n :: r => rems r (rem n X) end.
+
+Lemma rems_incl ns : forall X, incl (rems ns X) X.
 Proof.
-  unfold clr. destruct o as [k|]; [|discriminate]. destruct (fname_eqb k n) eqn:E; [discriminate|].
-  intros K. inversion K; subst. rewrite fname_eqb_refl in E. discriminate.
+  induction ns as [|n ns IH]; intros X; [apply incl_refl|]. cbn [rems].
+  intros m H. apply (rem_incl n X). apply IH. exact H.
 Qed.
 
-(* ------------------------------------------------------------------ *)
-(* deletions never fail                                                 *)
-Lemma delete_files_lock o ns : forall e ec, R o e ec ->
-  R o (delete_files ns e) (delete_files ns ec) /\ aext ec (delete_files ns ec) /\
-  e_fault (delete_files ns e) = e_fault e /\
-  e_disk (delete_files ns e) = del_disk ns (e_disk e) /\
-  e_disk (delete_files ns ec) = del_disk ns (e_disk ec) /\
-  (forall n, o = Some n -> In n ns -> R None (delete_files ns e) (delete_files ns ec)).
+Lemma rems_in ns : forall X m, In m (rems ns X) -> ~ In m ns.
 Proof.
-  revert o. induction ns as [|n ns IH]; intros o e ec HR.
-  - cbn. split; [exact HR|]. split; [apply aext_refl|]. split; [reflexivity|]. split; [reflexivity|]. split; [reflexivity|]. intros m _ [].
-  - unfold delete_files. cbn [fold_left]. fold (delete_files ns (snd (io (ADelete n) e))).
-    fold (delete_files ns (snd (io (ADelete n) ec))).
-    destruct HR as (Hd & Hf).
-    assert (E1 : snd (io (ADelete n) ec) = io_env (ADelete n) ec) by (rewrite (io_ok _ _ Hf); reflexivity).
-    assert (E2 : e_disk (snd (io (ADelete n) e)) = apply_act (e_disk e) (ADelete n) /\ e_fault (snd (io (ADelete n) e)) = e_fault e).
-    { unfold io. cbn [is_delete snd e_disk e_fault]. auto. }
-    destruct E2 as (E2 & E3). rewrite E1.
-    assert (HR1 : R o (snd (io (ADelete n) e)) (io_env (ADelete n) ec)).
-    { split; [|reflexivity]. rewrite E2. cbn [io_env e_disk]. apply drel_act_simple; [exact I|exact Hd]. }
-    destruct (IH _ _ _ HR1) as (A1 & A2 & A3 & A4 & A5 & A6).
-    split; [exact A1|]. split; [eapply aext_trans; [apply aext_io|exact A2]|].
-    split; [rewrite A3; exact E3|]. split; [rewrite A4, E2; reflexivity|]. split; [rewrite A5; reflexivity|].
-    intros m Ho [<-|Hin]; [|apply (A6 m Ho Hin)].
-    assert (HR2 : R None (snd (io (ADelete n) e)) (io_env (ADelete n) ec)).
-    { split; [|reflexivity]. rewrite E2. cbn [io_env e_disk]. apply drel_delete_stale. rewrite <- Ho. exact Hd. }
-    destruct (IH _ _ _ HR2) as (B1 & _). exact B1.
+  induction ns as [|n ns IH]; intros X m H; [intros []|]. cbn [rems] in H. intros [<-|K].
+  - apply (rems_incl ns) in H. apply (rem_not n X H).
+  - apply (IH _ _ H K).
+Qed.
+
+Lemma del_fails_ext e e' : e_fault e' = e_fault e -> e_fx e' = e_fx e -> del_fails e' = del_fails e.
+Proof. intros A B. unfold del_fails, armed. rewrite A, B. reflexivity. Qed.
+
+Lemma io_delete n e :
+  e_fault (snd (io (ADelete n) e)) = e_fault e /\ e_fx (snd (io (ADelete n) e)) = e_fx e /\
+  e_disk (snd (io (ADelete n) e)) = (if del_fails e then e_disk e else apply_act (e_disk e) (ADelete n)).
+Proof. unfold io, del_fails. cbn [is_delete]. destruct (armed e && fx_del (e_fx e)); cbn; auto. Qed.
+
+Lemma delete_files_real ns : forall e,
+  e_fault (delete_files ns e) = e_fault e /\ e_fx (delete_files ns e) = e_fx e /\
+  e_disk (delete_files ns e) = (if del_fails e then e_disk e else del_disk ns (e_disk e)).
+Proof.
+  induction ns as [|n ns IH]; intros e.
+  - cbn. destruct (del_fails e); auto.
+  - unfold delete_files, del_disk. cbn [fold_left]. fold (delete_files ns (snd (io (ADelete n) e))).
+    fold (del_disk ns (apply_act (e_disk e) (ADelete n))).
+    destruct (IH (snd (io (ADelete n) e))) as (A & B & C). destruct (io_delete n e) as (D1 & D2 & D3).
+    rewrite A, B, C, (del_fails_ext _ _ D1 D2), D1, D2, D3. destruct (del_fails e); auto.
+Qed.
+
+Lemma delete_files_lock ns : forall X e ec, R X e ec ->
+  aext ec (delete_files ns ec) /\ e_fault (delete_files ns ec) = None /\
+  e_disk (delete_files ns ec) = del_disk ns (e_disk ec) /\
+  e_fault (delete_files ns e) = e_fault e /\
+  (if del_fails e then e_disk (delete_files ns e) = e_disk e
+   else R (rems ns X) (delete_files ns e) (delete_files ns ec)).
+Proof.
+  intros X e ec HR. pose proof HR as (Hd & Hf).
+  destruct (delete_files_real ns e) as (A & B & C).
+  assert (Hsh : forall ns ec, e_fault ec = None ->
+            aext ec (delete_files ns ec) /\ e_fault (delete_files ns ec) = None /\ e_disk (delete_files ns ec) = del_disk ns (e_disk ec)).
+  { clear. induction ns as [|n ns IH]; intros ec Hf; [split; [apply aext_refl|auto]|].
+    unfold delete_files, del_disk. cbn [fold_left]. fold (delete_files ns (snd (io (ADelete n) ec))).
+    fold (del_disk ns (apply_act (e_disk ec) (ADelete n))).
+    rewrite (io_ok _ _ Hf). cbn [snd]. destruct (IH (io_env (ADelete n) ec) eq_refl) as (A1 & A2 & A3).
+    split; [eapply aext_trans; [apply aext_io|exact A1]|]. split; [exact A2|exact A3]. }
+  destruct (Hsh ns ec Hf) as (S1 & S2 & S3).
+  split; [exact S1|]. split; [exact S2|]. split; [exact S3|]. split; [exact A|].
+  destruct (del_fails e) eqn:E; [exact C|].
+  split; [|exact S2]. rewrite C, S3. clear - Hd.
+  revert X e ec Hd. induction ns as [|n ns IH]; intros X e ec Hd; [exact Hd|].
+  unfold del_disk. cbn [fold_left rems]. fold (del_disk ns (apply_act (e_disk e) (ADelete n))).
+  fold (del_disk ns (apply_act (e_disk ec) (ADelete n))).
+  set (e1 := {| e_acts := e_acts e; e_disk := apply_act (e_disk e) (ADelete n); e_fault := e_fault e; e_fx := e_fx e; e_m := e_m e |}).
+  set (ec1 := {| e_acts := e_acts ec; e_disk := apply_act (e_disk ec) (ADelete n); e_fault := e_fault ec; e_fx := e_fx ec; e_m := e_m ec |}).
+  apply (IH (rem n X) e1 ec1). apply drel_delete_stale. exact Hd.
 Qed.
 
 (* ------------------------------------------------------------------ *)
 (* Filer.Create                                                         *)
-Lemma seg_create_lock o si e ec sw e' swc ec' : R o e ec ->
+Lemma seg_create_lock X si e ec sw e' swc ec' : R X e ec ->
   seg_create si e = (sw, e') -> seg_create si ec = (swc, ec') ->
   aext ec ec' /\ e_fault ec' = None /\
-  ((sw = swc /\ R o e' ec') \/
-   (swc = Some (new_wseg si) /\ sw = None /\ e_disk e' = e_disk e /\ e_fault e' = None /\
-    e_disk ec' = apply_act (e_disk ec) (ACreate (name_of si) (si_size_limit si)))).
+  ((sw = swc /\ R X e' ec') \/
+   (swc = Some (new_wseg si) /\ sw = None /\ e_fault e' = None /\
+    e_disk ec' = apply_act (e_disk ec) (ACreate (name_of si) (si_size_limit si)) /\
+    (e_disk e' = e_disk e \/ drel X (e_disk e') (e_disk ec')))).
 Proof.
   intros HR. unfold seg_create. destruct (si_base si =? 0).
   - intros E1 E2. inversion E1; inversion E2; subst. split; [apply aext_refl|]. split; [apply HR|]. left. auto.
-  - pose proof (drel_lookup_none o _ _ (name_of si) (proj1 HR)) as Hn.
+  - pose proof (drel_lookup_none X _ _ (name_of si) (proj1 HR)) as Hn.
     destruct (lookup (name_of si) (dk_files (e_disk e))) as [f|] eqn:Ef, (lookup (name_of si) (dk_files (e_disk ec))) as [g|] eqn:Eg.
-    + destruct (io_lock o (AFail (ACreate (name_of si) (si_size_limit si))) e ec HR I) as (Ec & [(e1 & Er & HR1)|(e1 & Er & D & F)]);
+    + destruct (io_lock X (AFail (ACreate (name_of si) (si_size_limit si))) e ec HR (conj I eq_refl)) as (Ec & [(e1 & Er & HR1 & _)|(e1 & Er & D & F & _)]);
         rewrite Ec, Er; intros E1 E2; inversion E1; inversion E2; subst;
         (split; [apply aext_io|]); (split; [reflexivity|]); left; (split; [reflexivity|]); [exact HR1|].
       split; [|reflexivity]. rewrite D. cbn [io_env e_disk apply_act]. apply HR.
     + exfalso. destruct Hn as (_ & Hn). specialize (Hn eq_refl). discriminate.
     + exfalso. destruct Hn as (Hn & _). specialize (Hn eq_refl). discriminate.
-    + destruct (io_lock o (ACreate (name_of si) (si_size_limit si)) e ec HR I) as (Ec & [(e1 & Er & HR1)|(e1 & Er & D & F)]);
+    + destruct (io_lock X (ACreate (name_of si) (si_size_limit si)) e ec HR (conj I eq_refl)) as (Ec & [(e1 & Er & HR1 & _)|(e1 & Er & D & F & Fx)]);
         rewrite Ec, Er; intros E1 E2; inversion E1; inversion E2; subst;
         (split; [apply aext_io|]); (split; [reflexivity|]).
       * left. auto.
-      * right. auto.
+      * right. split; [reflexivity|]. split; [reflexivity|].
+        destruct (fx_leave (e_fx e)).
+        -- split; [exact F|]. split; [reflexivity|]. right. unfold leave_entry. cbn [e_disk io_env]. rewrite D.
+           apply drel_create. apply HR.
+        -- split; [exact F|]. split; [reflexivity|]. left. exact D.
 Qed.
 
 (* ------------------------------------------------------------------ *)
@@ -430,16 +492,16 @@ Proof. destruct ls; reflexivity. Qed.
 Lemma append_act_form tw ls : exists l b, append_act tw ls = AWrite (ws_name tw) (ws_off tw) l b.
 Proof. unfold append_act. cbv zeta. eexists _, _. reflexivity. Qed.
 
-Lemma seg_append_lock o tw ls e ec r tw' e' rc twc ec' : R o e ec ->
-  (o = Some (ws_name tw) -> wguard (e_disk e) (ws_name tw) (ws_off tw)) ->
+Lemma seg_append_lock X tw ls e ec r tw' e' rc twc ec' : R X e ec ->
+  (In (ws_name tw) X -> wguard (e_disk e) (ws_name tw) (ws_off tw)) ->
   seg_append tw ls e = (r, tw', e') -> seg_append tw ls ec = (rc, twc, ec') ->
   aext ec ec' /\ e_fault ec' = None /\
-  ((r = rc /\ tw' = twc /\ R o e' ec' /\ (rc = ROk -> ls <> [] -> R (clr o (ws_name tw)) e' ec') /\
+  ((r = rc /\ tw' = twc /\ R X e' ec' /\ (rc = ROk -> ls <> [] -> R (rem (ws_name tw) X) e' ec') /\
     (rc <> ROk -> e' = e /\ ec' = ec /\ tw' = tw)) \/
    (rc = ROk /\ ls <> [] /\ r = RErrIO /\ tw' = tw /\ e_fault e' = None /\
     (exists l0 lr, ls = l0 :: lr /\ l_index l0 = ws_base tw + ws_n tw /\ ws_index_start tw = 0) /\
     (e_disk e' = e_disk e \/
-     (drel (clr o (ws_name tw)) (e_disk e') (apply_act (e_disk ec) (append_act tw ls)) /\
+     (drel (rem (ws_name tw) X) (e_disk e') (apply_act (e_disk ec) (append_act tw ls)) /\
       pfx ec ec' (apply_act (e_disk ec) (append_act tw ls)))))).
 Proof.
   intros HR Hg. rewrite !seg_append_eq. destruct ls as [|l0 ls'].
@@ -458,16 +520,16 @@ Proof.
   assert (Hfacts : exists l1 lr, ls = l1 :: lr /\ l_index l1 = ws_base tw + ws_n tw /\ ws_index_start tw = 0).
   { exists l0, ls'. split; [reflexivity|]. split; lia. }
   destruct (append_act_form tw ls) as (l & b & Ea). rewrite Ea.
-  destruct (io_lock_write o (ws_name tw) (ws_off tw) l b e ec HR Hg) as (Ec & Hr).
+  destruct (io_lock_write X (ws_name tw) (ws_off tw) l b e ec HR Hg) as (Ec & Hr).
   set (a := AWrite (ws_name tw) (ws_off tw) l b) in *.
   rewrite Ec. cbn [negb].
   assert (Ec2' : io (ASync (ws_name tw)) (io_env a ec) = (true, io_env (ASync (ws_name tw)) (io_env a ec))) by (apply io_ok; reflexivity).
   rewrite Ec2'. cbn [negb].
   destruct Hr as [(e1 & Er & HR1)|(e1 & Er & D & F)]; rewrite Er; cbn [negb].
-  - destruct (io_lock_sync (clr o (ws_name tw)) (ws_name tw) e1 (io_env a ec) HR1 (clr_not _ _)) as (_ & [(e2 & Er2 & HR2)|(e2 & Er2 & D2 & F2)]);
+  - destruct (io_lock_sync (rem (ws_name tw) X) (ws_name tw) e1 (io_env a ec) HR1 (rem_not _ _)) as (_ & [(e2 & Er2 & HR2)|(e2 & Er2 & D2 & F2)]);
       rewrite Er2; cbn [negb]; intros E1 E2; inversion E1; inversion E2; subst;
       (split; [eapply aext_trans; apply aext_io|]); (split; [reflexivity|]).
-    + left. split; [reflexivity|]. split; [reflexivity|]. split; [apply (R_clr_weaken o (ws_name tw)); exact HR2|].
+    + left. split; [reflexivity|]. split; [reflexivity|]. split; [apply (R_rem_weaken (ws_name tw) X); exact HR2|].
       split; [intros _ _; exact HR2|congruence].
     + right. split; [reflexivity|]. split; [discriminate|]. split; [reflexivity|]. split; [reflexivity|]. split; [exact F2|].
       split; [exact Hfacts|]. right. rewrite D2. split; [apply HR1|].
@@ -509,15 +571,15 @@ Proof. reflexivity. Qed.
 Lemma force_act_form tw : exists l b, force_act tw = AWrite (ws_name tw) (ws_off tw) l b.
 Proof. unfold force_act. cbv zeta. eexists _, _. reflexivity. Qed.
 
-Lemma seg_force_seal_lock o tw e ec r tw' e' rc twc ec' : R o e ec ->
-  (o = Some (ws_name tw) -> wguard (e_disk e) (ws_name tw) (ws_off tw)) ->
+Lemma seg_force_seal_lock X tw e ec r tw' e' rc twc ec' : R X e ec ->
+  (In (ws_name tw) X -> wguard (e_disk e) (ws_name tw) (ws_off tw)) ->
   seg_force_seal tw e = (r, tw', e') -> seg_force_seal tw ec = (rc, twc, ec') ->
   aext ec ec' /\ e_fault ec' = None /\
-  ((r = rc /\ tw' = twc /\ R o e' ec' /\ (rc = ROk -> ws_index_start tw = 0 -> R (clr o (ws_name tw)) e' ec') /\
+  ((r = rc /\ tw' = twc /\ R X e' ec' /\ (rc = ROk -> ws_index_start tw = 0 -> R (rem (ws_name tw) X) e' ec') /\
     (rc <> ROk \/ ws_index_start tw <> 0 -> e' = e /\ ec' = ec /\ tw' = tw)) \/
    (rc = ROk /\ ws_index_start tw = 0 /\ ws_n tw <> 0 /\ r = RErrIO /\ tw' = tw /\ e_fault e' = None /\
     (e_disk e' = e_disk e \/
-     (drel (clr o (ws_name tw)) (e_disk e') (apply_act (e_disk ec) (force_act tw)) /\
+     (drel (rem (ws_name tw) X) (e_disk e') (apply_act (e_disk ec) (force_act tw)) /\
       pfx ec ec' (apply_act (e_disk ec) (force_act tw)))))).
 Proof.
   intros HR Hg. rewrite !seg_force_seal_eq.
@@ -529,16 +591,16 @@ Proof.
     split; [reflexivity|]. split; [reflexivity|]. split; [exact HR|]. split; [discriminate|auto]. }
   assert (His : ws_index_start tw = 0) by lia. assert (Hn0 : ws_n tw <> 0) by lia.
   destruct (force_act_form tw) as (l & b & Ea). rewrite Ea.
-  destruct (io_lock_write o (ws_name tw) (ws_off tw) l b e ec HR Hg) as (Ec & Hr).
+  destruct (io_lock_write X (ws_name tw) (ws_off tw) l b e ec HR Hg) as (Ec & Hr).
   set (a := AWrite (ws_name tw) (ws_off tw) l b) in *.
   rewrite Ec. cbn [negb].
   assert (Ec2' : io (ASync (ws_name tw)) (io_env a ec) = (true, io_env (ASync (ws_name tw)) (io_env a ec))) by (apply io_ok; reflexivity).
   rewrite Ec2'. cbn [negb].
   destruct Hr as [(e1 & Er & HR1)|(e1 & Er & D & F)]; rewrite Er; cbn [negb].
-  - destruct (io_lock_sync (clr o (ws_name tw)) (ws_name tw) e1 (io_env a ec) HR1 (clr_not _ _)) as (_ & [(e2 & Er2 & HR2)|(e2 & Er2 & D2 & F2)]);
+  - destruct (io_lock_sync (rem (ws_name tw) X) (ws_name tw) e1 (io_env a ec) HR1 (rem_not _ _)) as (_ & [(e2 & Er2 & HR2)|(e2 & Er2 & D2 & F2)]);
       rewrite Er2; cbn [negb]; intros E1 E2; inversion E1; inversion E2; subst;
       (split; [eapply aext_trans; apply aext_io|]); (split; [reflexivity|]).
-    + left. split; [reflexivity|]. split; [reflexivity|]. split; [apply (R_clr_weaken o (ws_name tw)); exact HR2|].
+    + left. split; [reflexivity|]. split; [reflexivity|]. split; [apply (R_rem_weaken (ws_name tw) X); exact HR2|].
       split; [intros _ _; exact HR2|]. intros [K|K]; congruence.
     + right. repeat split; auto; try discriminate. right. rewrite D2. split; [apply HR1|].
       eapply pfx_more; [apply (pfx_end ec (io_env a ec)); apply aext_io|apply aext_io].
@@ -621,35 +683,88 @@ Proof.
   intros K; inversion K; subst. eapply sh_mutate_gen; eauto.
 Qed.
 
-Lemma mutate_gen_lock o defer w t e ec r w' e' dl rc wc' ec' dlc : R o e ec ->
+Lemma seg_create_some si e sw e' : seg_create si e = (Some sw, e') ->
+  sw = new_wseg si /\ lookup (name_of si) (dk_files (e_disk e)) = None.
+Proof.
+  unfold seg_create. destruct (si_base si =? 0); [intros E; inversion E|].
+  destruct (lookup _ _).
+  - destruct (io _ e) as [ok e1]. intros E; inversion E.
+  - destruct (io _ e) as [ok e1]. destruct ok; intros E; inversion E; auto.
+Qed.
+
+(* the outcome of a trailing run of deletions: both runs deleted, or the real run's
+   deletions all failed and it stays related to the shadow state before them *)
+Definition Rd (X : list fname) (ns : list fname) (ec0 e' ec' : env) : Prop :=
+  R (rems ns X) e' ec' \/
+  (exists ecp, R X e' ecp /\ ec' = delete_files ns ecp /\ aext ec0 ecp /\ e_fault e' <> None).
+
+Lemma Rd_nil X ec0 e' ec' : Rd X [] ec0 e' ec' -> R X e' ec'.
+Proof. intros [H|(ecp & H & -> & _)]; exact H. Qed.
+Lemma Rd_of_R X ec0 e' ec' : R X e' ec' -> Rd X [] ec0 e' ec'.
+Proof. intros H. left. exact H. Qed.
+
+Lemma Rd_shift X ns ec0 ec1 e' ec' : aext ec0 ec1 -> Rd X ns ec1 e' ec' -> Rd X ns ec0 e' ec'.
+Proof.
+  intros Ha [H|(ecp & H & E & A & F)]; [left; exact H|right]. exists ecp. split; [exact H|]. split; [exact E|].
+  split; [eapply aext_trans; eauto|exact F].
+Qed.
+
+Lemma delete_files_Rd X ns e ec ec0 : R X e ec -> aext ec0 ec ->
+  Rd X ns ec0 (delete_files ns e) (delete_files ns ec) /\ e_fault (delete_files ns e) = e_fault e.
+Proof.
+  intros HR Ha. destruct (delete_files_lock ns X e ec HR) as (_ & _ & _ & A & B). split; [|exact A].
+  destruct (del_fails e) eqn:Ed.
+  - right. exists ec. split; [split; [|apply HR]; rewrite B; apply HR|]. split; [reflexivity|]. split; [exact Ha|].
+    rewrite A. unfold del_fails, armed in Ed. destruct (e_fault e); [discriminate|discriminate].
+  - left. exact B.
+Qed.
+
+(* the metadata commit happened (and possibly the file creation after it left an empty
+   file): the real disk is related to a disk [dm] the shadow run passes through, which
+   lists [ps] and keeps every file of the shadow's starting disk *)
+Definition post_commit (X : list fname) (ec ec' : env) (d' : disk) (ps : pstate) : Prop :=
+  exists dm, drel X d' dm /\ pfx ec ec' dm /\ dk_meta dm = Some ps /\
+    (forall n, lookup n (dk_files (e_disk ec)) <> None -> lookup n (dk_files dm) = lookup n (dk_files (e_disk ec))) /\
+    dk_stable dm = dk_stable (e_disk ec) /\
+    (forall n f, lookup n (dk_files dm) = Some f -> lookup n (dk_files (e_disk ec)) = None -> df_pend f = None).
+
+Lemma post_commit_shift X ec0 ec ec' d' ps : aext ec0 ec -> e_disk ec = e_disk ec0 ->
+  post_commit X ec ec' d' ps -> post_commit X ec0 ec' d' ps.
+Proof.
+  intros Ha Hd (dm & A & B & C & D & E & F). exists dm. split; [exact A|]. split; [eapply pfx_shift; eauto|].
+  split; [exact C|]. rewrite <- Hd. auto.
+Qed.
+
+Definition dels_of (defer : bool) (rc : result) (t : txn) : list fname :=
+  match rc with ROk => if defer then [] else tx_delete t | _ => [] end.
+
+Lemma mutate_gen_lock X defer w t e ec r w' e' dl rc wc' ec' dlc : R X e ec ->
   mutate_gen defer w t e = (r, w', e', dl) -> mutate_gen defer w t ec = (rc, wc', ec', dlc) ->
-  (r = rc /\ w' = wc' /\ dl = dlc /\ R o e' ec' /\
-   (rc = ROk -> defer = false -> forall n, o = Some n -> In n (tx_delete t) -> R None e' ec') /\
+  (r = rc /\ w' = wc' /\ dl = dlc /\ Rd X (dels_of defer rc t) ec e' ec' /\
    (rc <> ROk -> st_failed wc' = true)) \/
   (e_fault e' = None /\ r = RErrIO /\ dl = [] /\
    ((w' = w /\ e_disk e' = e_disk e) \/
     (rc = ROk /\ w' = set_failed w /\ tx_create t <> None /\
-     drel o (e_disk e') (apply_act (e_disk ec) (ACommit (tx_ps t))) /\
-     pfx ec ec' (apply_act (e_disk ec) (ACommit (tx_ps t))) /\
+     post_commit X ec ec' (e_disk e') (tx_ps t) /\
      dk_meta (e_disk ec') = Some (tx_ps t) /\
      (defer = false -> forall n, In n (tx_delete t) -> lookup n (dk_files (e_disk ec')) = None) /\
      NoDup (map fst (dk_files (e_disk ec')))))).
 Proof.
   intros HR. unfold mutate_gen. fold (tx_ps t).
-  destruct (io_lock o (ACommit (tx_ps t)) e ec HR I) as (Ec & [(e1 & Er & HR1)|(e1 & Er & D & F)]); rewrite Ec, Er; cbn [negb].
+  destruct (io_lock X (ACommit (tx_ps t)) e ec HR (conj I eq_refl)) as (Ec & [(e1 & Er & HR1 & _)|(e1 & Er & D & F & _)]); rewrite Ec, Er; cbn [negb].
   2:{ intros E1 _. inversion E1; subst. right. auto 10. }
   set (ec1 := io_env (ACommit (tx_ps t)) ec) in *.
+  assert (Ha1 : aext ec ec1) by apply aext_io.
   destruct (tx_create t) as [si|] eqn:Etc.
   - destruct (seg_create si e1) as [sw e2] eqn:Es. destruct (seg_create si ec1) as [swc ec2] eqn:Esc.
-    destruct (seg_create_lock o si e1 ec1 sw e2 swc ec2 HR1 Es Esc) as (A1 & A2 & [(-> & HR2)|(-> & -> & D & F & Dc)]).
+    destruct (seg_create_lock X si e1 ec1 sw e2 swc ec2 HR1 Es Esc) as (A1 & A2 & [(-> & HR2)|(-> & -> & F & Dc & Hreal)]).
     + destruct swc as [sw|].
       * destruct defer; intros E1 E2; inversion E1; inversion E2; subst; left.
-        -- split; [reflexivity|]. split; [reflexivity|]. split; [reflexivity|]. split; [exact HR2|]. split; [discriminate|congruence].
-        -- destruct (delete_files_lock o (tx_delete t) e2 ec2 HR2) as (B1 & _ & _ & _ & _ & B6).
-           split; [reflexivity|]. split; [reflexivity|]. split; [reflexivity|]. split; [exact B1|].
-           split; [intros _ _ n Ho Hin; apply (B6 n Ho Hin)|congruence].
+        -- split; [reflexivity|]. split; [reflexivity|]. split; [reflexivity|]. split; [apply Rd_of_R; exact HR2|congruence].
+        -- split; [reflexivity|]. split; [reflexivity|]. split; [reflexivity|]. split; [|congruence].
+           apply (delete_files_Rd X (tx_delete t) e2 ec2 ec HR2). eapply aext_trans; eauto.
       * intros E1 E2; inversion E1; inversion E2; subst. left.
-        split; [reflexivity|]. split; [reflexivity|]. split; [reflexivity|]. split; [exact HR2|]. split; [discriminate|reflexivity].
+        split; [reflexivity|]. split; [reflexivity|]. split; [reflexivity|]. split; [apply Rd_of_R; exact HR2|reflexivity].
     + intros E1. inversion E1; subst. intros E2. right.
       split; [exact F|]. split; [reflexivity|]. split; [reflexivity|]. right.
       assert (ND2 : NoDup (map fst (dk_files (e_disk ec2)))).
@@ -666,26 +781,38 @@ Proof.
           replace (mem_name n (tx_delete t)) with true; [reflexivity|]. symmetry. apply mem_name_spec. exact Hin. }
       destruct Hsh as (Hsh & -> & Hm' & Hdel' & ND').
       split; [reflexivity|]. split; [reflexivity|]. split; [discriminate|].
-      split; [rewrite D; apply HR1|].
-      split; [eapply pfx_more; [apply (pfx_end ec ec1); apply aext_io|]; eapply aext_trans; [exact A1|apply Hsh]|].
-      split; [exact Hm'|]. split; [exact Hdel'|exact ND'].
+      assert (Hsl : seg_create si ec1 = (Some (new_wseg si), ec2)) by exact Esc.
+      destruct (seg_create_some _ _ _ _ Hsl) as (_ & Hfresh).
+      destruct Hreal as [Hd|Hd].
+      * split; [|split; [exact Hm'|split; [exact Hdel'|exact ND']]].
+        exists (e_disk ec1). split; [rewrite Hd; apply HR1|].
+        split; [eapply pfx_more; [apply (pfx_end ec ec1); exact Ha1|]; eapply aext_trans; [exact A1|apply Hsh]|].
+        split; [reflexivity|]. split; [intros n _; reflexivity|]. split; [reflexivity|].
+        intros n f Hl Hn. cbn [ec1 io_env e_disk apply_act dk_files] in Hl. congruence.
+      * split; [|split; [exact Hm'|split; [exact Hdel'|exact ND']]].
+        exists (e_disk ec2). split; [exact Hd|].
+        split; [eapply pfx_more; [apply (pfx_end ec ec2); eapply aext_trans; eauto|apply Hsh]|].
+        split; [exact Hm2|]. split; [|split; [rewrite Dc; reflexivity|]].
+        { intros n Hn. rewrite Dc. cbn [apply_act dk_files]. apply lookup_update_neq. intros ->. apply Hn. exact Hfresh. }
+        intros n f Hl Hn. rewrite Dc in Hl. cbn [apply_act dk_files] in Hl.
+        destruct (fname_eqb n (name_of si)) eqn:En.
+        { apply fname_eqb_eq in En. subst n. rewrite lookup_update_eq in Hl. inversion Hl; reflexivity. }
+        apply fname_eqb_neq in En. rewrite lookup_update_neq in Hl by exact En.
+        cbn [ec1 io_env e_disk apply_act dk_files] in Hl. congruence.
   - destruct defer; intros E1 E2; inversion E1; inversion E2; subst; left.
-    + split; [reflexivity|]. split; [reflexivity|]. split; [reflexivity|]. split; [exact HR1|]. split; [discriminate|congruence].
-    + destruct (delete_files_lock o (tx_delete t) e1 ec1 HR1) as (B1 & _ & _ & _ & _ & B6).
-      split; [reflexivity|]. split; [reflexivity|]. split; [reflexivity|]. split; [exact B1|].
-      split; [intros _ _ n Ho Hin; apply (B6 n Ho Hin)|congruence].
+    + split; [reflexivity|]. split; [reflexivity|]. split; [reflexivity|]. split; [apply Rd_of_R; exact HR1|congruence].
+    + split; [reflexivity|]. split; [reflexivity|]. split; [reflexivity|]. split; [|congruence].
+      apply (delete_files_Rd X (tx_delete t) e1 ec1 ec HR1 Ha1).
 Qed.
 
-Lemma mutate_lock o w t e ec r w' e' rc wc' ec' : R o e ec ->
+Lemma mutate_lock X w t e ec r w' e' rc wc' ec' : R X e ec ->
   mutate w t e = (r, w', e') -> mutate w t ec = (rc, wc', ec') ->
-  (r = rc /\ w' = wc' /\ R o e' ec' /\
-   (rc = ROk -> forall n, o = Some n -> In n (tx_delete t) -> R None e' ec') /\
+  (r = rc /\ w' = wc' /\ Rd X (dels_of false rc t) ec e' ec' /\
    (rc <> ROk -> st_failed wc' = true)) \/
   (e_fault e' = None /\ r = RErrIO /\
    ((w' = w /\ e_disk e' = e_disk e) \/
     (rc = ROk /\ w' = set_failed w /\ tx_create t <> None /\
-     drel o (e_disk e') (apply_act (e_disk ec) (ACommit (tx_ps t))) /\
-     pfx ec ec' (apply_act (e_disk ec) (ACommit (tx_ps t))) /\
+     post_commit X ec ec' (e_disk e') (tx_ps t) /\
      dk_meta (e_disk ec') = Some (tx_ps t) /\
      (forall n, In n (tx_delete t) -> lookup n (dk_files (e_disk ec')) = None) /\
      NoDup (map fst (dk_files (e_disk ec')))))).
@@ -694,9 +821,9 @@ Proof.
   destruct (mutate_gen false w t e) as [[[r0 w0] e0] d0] eqn:E1.
   destruct (mutate_gen false w t ec) as [[[rc0 wc0] ec0] dc0] eqn:E2.
   intros K1 K2; inversion K1; inversion K2; subst.
-  destruct (mutate_gen_lock o false w t e ec _ _ _ _ _ _ _ _ HR E1 E2) as [(A & B & C & D & E & F)|(A & B & C & [D|(D0 & D1 & D2 & D3 & D4 & D5 & D6 & D7)])].
-  - left. split; [exact A|]. split; [exact B|]. split; [exact D|]. split; [|exact F]. intros Hr n Ho Hin. apply (E Hr eq_refl n Ho Hin).
+  destruct (mutate_gen_lock X false w t e ec _ _ _ _ _ _ _ _ HR E1 E2) as [(A & B & C & D & F)|(A & B & C & [D|(D0 & D1 & D2 & D3 & D7 & D8 & D9)])].
+  - left. auto.
   - right. auto.
   - right. split; [exact A|]. split; [exact B|]. right. split; [exact D0|]. split; [exact D1|]. split; [exact D2|].
-    split; [exact D3|]. split; [exact D4|]. split; [exact D5|]. split; [apply D6; reflexivity|exact D7].
+    split; [exact D3|]. split; [exact D7|]. split; [apply D8; reflexivity|exact D9].
 Qed.
